@@ -53,7 +53,6 @@ def lib_key(lib):
 def install(ctx, lib):
     for name, (body, w) in lib.items():
         ctx.add_page("Template:" + name, 10, body_text(body, w))
-    type(ctx).get_page.cache_clear()
 
 
 def check(ctx, lib, page):
@@ -169,7 +168,6 @@ def replay(case):
     try:
         for name, (body, w) in case["library"].items():
             ctx.add_page("Template:" + name, 10, body)
-        type(ctx).get_page.cache_clear()
         ctx.start_page("Tt")
         try:
             got = ctx.expand(case["page"])
